@@ -219,14 +219,23 @@ def run_job(job):
             for k in range(14):
                 p = os.path.join(p, big + str(k))
                 os.mkdir(p)
+        # a second root (0..3 entries): rows, separators and the footer must not depend on which root a row comes from
+        os.mkdir(os.path.join(w, "e"))
+        for nm in gen_names(rng, rng.choice([0, 1, 3])):
+            try:
+                with open(os.path.join(w, "e", nm), "w") as f:
+                    f.write("y" * rng.randrange(0, 30))
+            except OSError:
+                pass
         for qi in range(job["queries"]):
+            frm = rng.choice(["d", "d", "d", "d, e", "e, d", "d dfs", "d, e, d", "e, e"])
             path = rng.choice(["streamed", "ordered", "aggregate", "grouped"])
             ncols = rng.randint(1, 6)
             if path in ("streamed", "ordered"):
                 cols = rng.sample(COLS, ncols)
                 if shape == "big" and rng.random() < 0.6:
                     cols = ["path", "dir", "upper(path)", "lower(path)", "name"]   # > 8 KiB per record
-                q = "%s from d" % ", ".join(cols)
+                q = "%s from %s" % (", ".join(cols), frm)
                 if rng.random() < 0.3:
                     q += " where size >= %d" % rng.choice([0, 5, 15])
                 if path == "ordered":
@@ -236,12 +245,12 @@ def run_job(job):
                 ordered_cmp = True
             elif path == "aggregate":
                 cols = rng.sample(["count(*)", "sum(size)", "min(size)", "max(size)", "avg(size)", "max(hardlinks)"], min(ncols, 6))
-                q = "%s from d" % ", ".join(cols)
+                q = "%s from %s" % (", ".join(cols), frm)
                 ordered_cmp = True
             else:
                 key = rng.choice(["name", "ext", "mode", "upper(name)"])
                 cols = [key] + rng.sample(["count(*)", "sum(size)", "min(size)", "max(size)"], min(ncols, 4) - 1 if ncols > 1 else 0)
-                q = "%s from d group by %s" % (", ".join(cols), key)
+                q = "%s from %s group by %s" % (", ".join(cols), frm, key)
                 if rng.random() < 0.5:
                     q += " order by %s" % key
                 ordered_cmp = "order by" in q
@@ -300,6 +309,7 @@ def run_job(job):
                     all_ok = False
                     continue
                 res.cover("format_path", "%s %s" % (fmt, path))
+                res.cover("from", frm)
                 res.count("hook_out_events", sum(kinds.values()))
             if all_ok:
                 res.cover("rows_class", "0" if not ref else "1" if len(ref) == 1 else "many")
@@ -325,12 +335,12 @@ def main(chk):
     return chk.finish(
         rule="directories whose file names are drawn from every printable ASCII punctuation character, TAB/LF/CR and other control "
              "characters, all three quote kinds, < > &, multi-byte UTF-8 and emoji (0, 1, many rows; one case with a > 8 KiB record); "
-             "select lists of 1..6 distinct columns; each query is run `into list` (reference table) and into json, csv, html, tabs, lines on "
+             "select lists of 1..6 distinct columns; one root, two roots in either order, a root listed twice; each query is run `into list` (reference table) and into json, csv, html, tabs, lines on "
              "the streamed, ordered, aggregate and grouped result paths; outputs are decoded with json.loads, a strict RFC 4180 parser, a "
              "tag-stack HTML parser and compared with the reference table. Non-trivial = >= 1 row; distinct by (path, query, rows).",
         assumptions=["JSON objects are compared as value multisets plus member count (key naming is not part of the property)",
                      "tabs/lines are compared only when no value contains the separator",
                      "grouped rows without ORDER BY are compared as multisets (group order is unspecified)"],
-        require={"format_path": 20, "hostile_chars_in_values": 12},
+        require={"from": 6, "format_path": 20, "hostile_chars_in_values": 12},
         exhaustive={"formats_x_paths": "json csv html tabs lines x streamed ordered aggregate grouped (list is the reference)"},
     )
